@@ -166,3 +166,21 @@ CHECKS["C12"] = {
     ],
     "assumptions": ["nothing named verif-c12-cfg* exists in the root directory (NULL/\"\" directory arguments resolve there)"],
 }
+
+CHECKS["C16"] = {
+    "engine": "E1",
+    "technique": "deviation-bounded exhaustive enumeration of trees x file attribute assignments x restriction combinations x all eight read entry points on a real tmpfs tree (lchown/symlink)",
+    "level_text": "every small tree, every combination of the three restrictions, every assignment of {foreign owner, foreign group, symlink} in which at most D "
+                  "files deviate from the required attributes, through all eight read entry points: the first consulted violating file decides the error code, "
+                  "no content is handed back, compliant trees read as in C01, and after econf_reset_security_settings() everything is accepted again",
+    "level_note": "bounded: 2 names, D<=1 (quick) / 3 names, D<=2 (thorough); runs as root (lchown); trusted: tree.h reference list, tmpfs ownership semantics, ASan/UBSan",
+    "rule": "case = (entry point, tree, restriction set, attribute assignment); non-trivial = a restriction is active and at least one file deviates; "
+            "distinct by construction; deviation = one file with non-default attributes",
+    "deadline": {"quick": 100, "thorough": 900},
+    "parts": [
+        {"name": "attributes", "harness": "c16", "variant": "asan", "quick": ["--p0", 2, "--p1", 1], "thorough": ["--p0", 3, "--p1", 2],
+         "floor": {"quick": 10000, "thorough": 100000}},
+    ],
+    "assumptions": ["checks run as root; a non-root run skips every case and fails closed on the non-trivial floor",
+                    "econf_requirePermissions is not part of the statement and is not exercised"],
+}
